@@ -239,12 +239,27 @@ def check_spec_augment(spec):
     return Case(bool(ch.any()) or min(H, W) == 1, ["changed" if ch.any() else "unchanged"])
 
 
-def _coord_pair(h, w):
+def _coord_pair(h, w, kind="index", key=0):
+    """image carries its own coordinates; the mask is either the linear index or a category map dominated by one class"""
     rows = torch.arange(h).view(h, 1).expand(h, w).float()
     cols = torch.arange(w).view(1, w).expand(h, w).float()
     x = torch.stack([rows, cols, torch.zeros(h, w)])
-    mask = (torch.arange(h).view(h, 1) * w + torch.arange(w).view(1, w)).long()
+    if kind == "index":
+        mask = (torch.arange(h).view(h, 1) * w + torch.arange(w).view(1, w)).long()
+    else:
+        g = np.random.default_rng([key, h, w])
+        mask = torch.zeros(h, w, dtype=torch.long)
+        for _ in range(max(1, (h * w) // 12)):
+            mask[int(g.integers(0, h)), int(g.integers(0, w))] = int(g.integers(1, 4))
     return x, mask
+
+
+def _in_register(x, m, m0):
+    """every valid mask pixel equals the original mask at the coordinates its image pixel carries"""
+    valid = m != -1
+    r = x[0].round().long().clamp(0, m0.shape[0] - 1)
+    c = x[1].round().long().clamp(0, m0.shape[1] - 1)
+    return bool(torch.equal(m0[r[valid], c[valid]], m[valid])), int((m0[r, c] != m)[valid].sum()), int(valid.sum())
 
 
 def _semseg_t(s):
@@ -254,9 +269,10 @@ def _semseg_t(s):
 
 def check_semseg(spec):
     h, w = spec["h"], spec["w"]
-    x, m = _coord_pair(h, w)
+    x, m = _coord_pair(h, w, spec.get("mask", "index"), spec["seed"])
+    m0 = m.clone()
     rng = rng_of(spec)
-    labels = []
+    labels = [spec.get("mask", "index")]
     for s in spec["ts"]:
         t = _semseg_t(s)
         t.set_rng(rng)
@@ -286,11 +302,9 @@ def check_semseg(spec):
             exp = (max(before[0], sz[0]), max(before[1], sz[1]))
             if size_hw(x) != exp:
                 raise Violation("semseg:pad-output-size", f"{size_hw(x)} vs {exp}")
-        valid = m != -1
-        dec = (x[0] * w + x[1]).round().long()
-        if not torch.equal(dec[valid], m[valid]):
-            k = (dec != m) & valid
-            raise Violation(f"semseg:image-and-mask-geometry-differ:{s['k']}", f"{int(k.sum())} of {int(valid.sum())} valid pixels disagree after {s}")
+        ok, bad, tot = _in_register(x, m, m0)
+        if not ok:
+            raise Violation(f"semseg:image-and-mask-geometry-differ:{s['k']}", f"{bad} of {tot} valid pixels disagree after {s}")
         labels.append(s["k"])
     return Case(len(spec["ts"]) >= 2 or min(h, w) <= 2, labels)
 
@@ -305,10 +319,10 @@ def check_semseg_wrapper(spec):
             return 3
 
         def getitem_x(self, idx, ctx=None):
-            return _coord_pair(h, w)[0]
+            return _coord_pair(h, w, spec.get("mask", "index"), spec["seed"])[0]
 
         def getitem_semseg(self, idx, ctx=None):
-            return _coord_pair(h, w)[1]
+            return _coord_pair(h, w, spec.get("mask", "index"), spec["seed"])[1]
 
     ds = SemsegTransformWrapper(Root(), transforms=[_semseg_t(s) for s in spec["ts"]], seed=spec["seed"] % 1000)
     mw = ModeWrapper(ds, mode=spec["mode"])
@@ -321,15 +335,13 @@ def check_semseg_wrapper(spec):
     items = dict(zip(spec["mode"].split(" "), got if isinstance(got, tuple) else (got,)))
     if "x" in items and "semseg" in items:
         x, m = items["x"], items["semseg"]
-        valid = m != -1
-        dec = (x[0] * w + x[1]).round().long()
-        if size_hw(x) != tuple(m.shape[-2:]) or not torch.equal(dec[valid], m[valid]):
+        m0 = _coord_pair(h, w, spec.get("mask", "index"), spec["seed"])[1]
+        if size_hw(x) != tuple(m.shape[-2:]) or not _in_register(x, m, m0)[0]:
             raise Violation("semseg-wrapper:image-and-mask-geometry-differ", f"mode {spec['mode']} transforms {spec['ts']}")
     # the single-item requests describe the same draw as the joint one
     x1, m1 = ModeWrapper(ds, mode="x")[spec["idx"]], ModeWrapper(ds, mode="semseg")[spec["idx"]]
-    valid = m1 != -1
-    dec = (x1[0] * w + x1[1]).round().long()
-    if size_hw(x1) != tuple(m1.shape[-2:]) or not torch.equal(dec[valid], m1[valid]):
+    m0 = _coord_pair(h, w, spec.get("mask", "index"), spec["seed"])[1]
+    if size_hw(x1) != tuple(m1.shape[-2:]) or not _in_register(x1, m1, m0)[0]:
         raise Violation("semseg-wrapper:separate-requests-differ-in-geometry", f"transforms {spec['ts']}")
     return Case(True, [spec["mode"].replace(" ", "_")])
 
@@ -469,10 +481,12 @@ SEMSEG_TS = st.lists(st.one_of(
     st.fixed_dictionaries({"k": st.just("KDSemsegPad"), "a": st.fixed_dictionaries({"size": st.sampled_from([4, 12, [6, 20], 33])})}),
     st.fixed_dictionaries({"k": st.just("KDSemsegResize"), "a": st.fixed_dictionaries({"size": st.sampled_from([5, [4, 9], 16]), "interpolation": st.just("nearest")})}),
     st.fixed_dictionaries({"k": st.just("KDSemsegRandomResize"), "a": st.fixed_dictionaries({"base_size": st.sampled_from([[8, 12], [16, 16]]), "ratio": st.sampled_from([[0.5, 2.0], [1.0, 1.0]]), "interpolation": st.just("nearest")})}),
-    st.fixed_dictionaries({"k": st.just("KDSemsegRandomCrop"), "a": st.fixed_dictionaries({"size": st.sampled_from([3, [4, 7], 12]), "max_category_ratio": st.sampled_from([1.0, 0.75])})}),
+    st.fixed_dictionaries({"k": st.just("KDSemsegRandomCrop"), "a": st.fixed_dictionaries({"size": st.sampled_from([3, [4, 7], 12]), "max_category_ratio": st.sampled_from([1.0, 0.75, 0.5])})}),
 ), min_size=1, max_size=4)
-SEMSEG = st.fixed_dictionaries({"h": st.integers(1, 24), "w": st.integers(1, 24), "seed": SEED, "ts": SEMSEG_TS})
+SEMSEG = st.fixed_dictionaries({"h": st.integers(1, 24), "w": st.integers(1, 24), "seed": SEED, "ts": SEMSEG_TS,
+                                "mask": st.sampled_from(["index", "dominated"])})
 SEMSEGW = st.fixed_dictionaries({"h": st.integers(2, 16), "w": st.integers(2, 16), "seed": SEED, "ts": SEMSEG_TS, "idx": st.integers(0, 2),
+                                 "mask": st.sampled_from(["index", "dominated"]),
                                  "mode": st.sampled_from(["x semseg", "semseg x", "x", "semseg"])})
 PATCH = st.fixed_dictionaries({"ph": st.integers(1, 5), "pw": st.integers(1, 5), "lh": st.integers(1, 5), "lw": st.integers(1, 5),
                                "c": st.integers(1, 3), "key": st.integers(0, 99), "a": st.integers(0, 9), "b": st.integers(0, 9), "seed": SEED})
